@@ -101,7 +101,7 @@ var purePrefixes = []string{"fmt.", "errors.", "github.com/pkg/errors.", "string
 	"bytes.Buffer.Bytes", "bytes.Buffer.Len", "bytes.Buffer.Cap", "bytes.Buffer.String", "bytes.Buffer.Available", "bytes.Reader.Len", "bytes.Reader.Size", "bytes.Reader.ReadAt",
 	"io.SectionReader.ReadAt", "io.SectionReader.Size", "io.ReaderAt.ReadAt", M + "/authenticode.SizeReaderAt.ReadAt", M + "/authenticode.SizeReaderAt.Size",
 	"hash.Hash.", "crypto.Hash.", "crypto/sha256.", "golang.org/x/crypto/cryptobyte.", "sort.Search", "encoding/pem.Decode", "crypto/x509.Parse", "unicode/utf16.", "log.Print", "log.Printf", "log.Println",
-	"encoding/binary.littleEndian.Uint", "encoding/binary.bigEndian.Uint", "encoding/binary.Size", "path.Join", "path/filepath.", "math/big.Int.", "debug/pe."}
+	"encoding/binary.littleEndian.Uint", "encoding/binary.bigEndian.Uint", "encoding/binary.Size", "sync.Pool.", "path.Join", "path/filepath.", "math/big.Int.", "debug/pe."}
 
 func isPureCall(id string) bool {
 	for _, p := range purePrefixes {
@@ -487,11 +487,23 @@ var readOnlyAPI = []string{
 func checkC19(c *Ctx) {
 	c.rulePure(readOnlyAPI)
 	c.R.Floor("E.pure", 24)
+	c.ruleRecycle("P.recycle", nil)
 }
 
 // rulePure: each listed read-only operation writes nothing reachable from its
 // receiver or package state.
-func (c *Ctx) rulePure(specs []string) {
+func (c *Ctx) rulePure(specs []string) { c.rulePureAs("E.pure", specs) }
+
+// rulePureAs is rulePure under another rule name; for plain functions (no
+// receiver) every stream parameter (io.Reader / io.Writer / *bytes.Buffer) is
+// the declared source or sink, and what is judged is that the function keeps
+// nothing in package-level memory (scratch buffers, pools, caches) that a
+// second or concurrent call would share.
+func (c *Ctx) rulePureAs(rule string, specs []string) {
+	what := "read-only operation writes nothing reachable from its receiver or package state and advances no shared cursor"
+	if rule != "E.pure" {
+		what = "the operation keeps nothing in package-level memory and writes only to its declared output"
+	}
 	a := &effAnalysis{c: c, unknown: map[string]string{}, visited: map[string]bool{}, funcs: map[*ssa.Function]bool{}}
 	for _, spec := range specs {
 		fn := c.FnOpt(spec)
@@ -504,7 +516,7 @@ func (c *Ctx) rulePure(specs []string) {
 			fn = c.FnOpt(alt)
 		}
 		if fn == nil {
-			c.R.Undecf("E.pure", spec, "anchor", "-", "read-only API method must resolve", "method "+spec+" not found")
+			c.R.Undecf(rule, spec, "anchor", "-", "read-only API method must resolve", "method "+spec+" not found")
 			continue
 		}
 		before := len(a.findings)
@@ -512,6 +524,10 @@ func (c *Ctx) rulePure(specs []string) {
 		params := make([]loc, len(fn.Params))
 		for i, p := range fn.Params {
 			switch {
+			case fn.Signature.Recv() == nil && (isStreamType(p.Type()) || isIfaceType(p.Type())):
+				params[i] = locOut
+			case fn.Signature.Recv() == nil:
+				params[i] = locArg
 			case i == 0:
 				params[i] = locRecv
 			case ir.NamedTypeID(p.Type()) == "bytes.Buffer":
@@ -523,7 +539,7 @@ func (c *Ctx) rulePure(specs []string) {
 		a.analyze(a.newCtx(fn, params, nil), 0)
 		fs := a.findings[before:]
 		if len(fs) == 0 {
-			c.R.Okf("E.pure", name(fn), "effects", c.Pos(fn.Pos()), "read-only operation writes nothing reachable from its receiver or package state and advances no shared cursor")
+			c.R.Okf(rule, name(fn), "effects", c.Pos(fn.Pos()), what)
 			continue
 		}
 		sort.SliceStable(fs, func(i, j int) bool { return ir.InstrPos(fs[i].instr) < ir.InstrPos(fs[j].instr) })
@@ -534,13 +550,13 @@ func (c *Ctx) rulePure(specs []string) {
 				continue
 			}
 			seen[k] = true
-			c.R.Violf("E.pure", name(fn), "effects:"+f.what+"@"+name(f.fn), c.IPos(f.instr),
-				"read-only operation writes nothing reachable from its receiver or package state and advances no shared cursor",
+			c.R.Violf(rule, name(fn), "effects:"+f.what+"@"+name(f.fn), c.IPos(f.instr),
+				what,
 				"in "+name(f.fn)+": "+f.detail)
 		}
 	}
 	for id, where := range a.unknown {
-		c.R.Undecf("E.pure", where, "unknown-callee:"+id, "-", "every library callee that receives a receiver-reachable object must be in the effect table",
+		c.R.Undecf(rule, where, "unknown-callee:"+id, "-", "every library callee that receives a receiver-reachable object must be in the effect table",
 			id+" receives an object reachable from the receiver or a global and is not in the pure/mutating tables")
 	}
 	c.R.Extra["instructions_examined"] = a.instrs
